@@ -17,7 +17,7 @@
 (*              each printed with the outcomes the law accepts for every call                               *)
 EXTENDS DrangeSession, Json
 CONSTANTS Scope,        \* "quick" | "thorough"
-          Family        \* which scripts the generator configuration enumerates: "pair" | "edit" | "real" | "none"
+          Family        \* which scripts the generator configuration enumerates: "pair" | "edit" | "real" | "all" | "none"
 VARIABLE hist           \* generator configurations only: the script (Init) / the steps taken so far (Sim)
 
 T1(n, u) == <<"tenor", <<<<n, u>>>>>>
@@ -49,10 +49,16 @@ SEdits == {<<"set_holidays", H1>>, <<"set_weekend", {4, 5}>>, <<"set_weekend", {
 Mutations == {"append", "pop", "clear", "reverse"}
 
 \* ------------------------------------------------------------------------- model checking ---
+\* (the model-checked sessions draw on a part of the universe: every state has |MCalls| successors)
+MCBumps  == DependentBumps \cup {<<"int", 1>>, <<"int", -1>>, <<"int", 2>>, <<"td", <<1, 0, 0>>>>, T1(1, "d"), T1(1, "m"),
+                                 T1(1, "b"), T1(-1, "b"), T1(2, "b")}
+MCalls   == {c \in SCalls : c[3] \in MCBumps /\ (Scope = "quick" => c[1][1] \in {A1, A3, A0 + 7})}
+MCEdits  == {<<"set_holidays", H1>>, <<"set_weekend", {4, 5}>>, <<"add_inplace", H2>>, <<"reset">>, <<"named", H1, {4, 5}>>}
+MCMutations == {"append", "clear"}
 Init == SInit /\ hist = <<>>
-Next == /\ \/ \E c \in SCalls : Call(c)
-           \/ \E e \in SEdits : EditCal(e)
-           \/ \E h \in Mutations : Mutate(h)
+Next == /\ \/ \E c \in MCalls : Call(c)
+           \/ \E e \in MCEdits : EditCal(e)
+           \/ \E h \in MCMutations : Mutate(h)
         /\ UNCHANGED hist
 \* the universe exercises what it is meant to: the same compound bump points both ways, and rejects, within it
 UniverseDiscriminates ==
@@ -88,15 +94,23 @@ BumpVariants(c) == {[PlainReals(c[3]) EXCEPT !.bump = r] : r \in {r \in IntReals
 
 \* --------------------------------------------------------------------------------- scripts ---
 \* a step of a script:  <<"call", c, reals>>   <<"edit", e>>   <<"mutate", how>>
-Collide(c, d) == c[3] = d[3] \/ (c[1] = d[1] /\ c[2] = d[2])
+\* (quick tier: the full square only where it matters most - start-dependent bumps from every pair of windows; the other
+\* bumps from the windows of two start days; two bumps over one window for the windows of one start day and the intraday ones)
+Narrow == Scope = "quick"
+SameBump(c, d)   == c[3] = d[3] /\ (~Narrow \/ c[3] \in DependentBumps \/ (c[1][1] \in {A1, A3} /\ d[1][1] \in {A1, A3}))
+SameWindow(c, d) == c[1] = d[1] /\ c[2] = d[2] /\ (~Narrow \/ c[1][1] \in {A1, A1 + 1, A0 + 6, A0 + 7})
+Collide(c, d) == SameBump(c, d) \/ SameWindow(c, d)
 PairScripts == UNION {{<< <<"call", c, RealsFor(c, 0)>>, <<"call", d, RealsFor(d, 1)>> >> : d \in {d \in SCalls : Collide(c, d)}} : c \in SCalls}
 \* the registry edited before a call; between two calls over one window (the second the same or another business-day bump)
 ECalls == BCalls \cup {c \in SCalls : c[3] \in {<<"int", 1>>, <<"int", -1>>, T1(1, "d"), T1(1, "w")}}
+ECalls1 == IF Narrow THEN {c \in BCalls : c[3] \in BBumps} ELSE BCalls
+Again(c) == {d \in BCalls : d[1] = c[1] /\ d[2] = c[2] /\ (~Narrow \/ d[3] \in {c[3], T1(1, "b"), T1(-1, "b")})}
 EditScripts == {<< <<"edit", e>>, <<"call", c, RealsFor(c, 2)>> >> : e \in SEdits, c \in ECalls}
                \cup UNION {{<< <<"call", c, RealsFor(c, 0)>>, <<"edit", e>>, <<"call", d, RealsFor(d, 3)>> >> :
-                               e \in SEdits, d \in {d \in BCalls : d[1] = c[1] /\ d[2] = c[2]}} : c \in BCalls}
+                               e \in SEdits, d \in Again(c)} : c \in ECalls1}
                \cup UNION {{<< <<"edit", e>>, <<"edit", f>>, <<"call", c, RealsFor(c, 1)>> >> :
-                               f \in SEdits \ {e, <<"reset">>}, c \in {c \in BCalls : c[3] \in {T1(1, "b"), T1(-2, "b")}}} : e \in SEdits}
+                               f \in SEdits \ {e, <<"reset">>},
+                               c \in {c \in BCalls : c[3] \in {T1(1, "b"), T1(-2, "b")} /\ (~Narrow \/ c[1][1] \in {A0, A3})}} : e \in SEdits}
 \* realisations: windows with every kind of endpoint (midnight, whole seconds, sub-second) x one bump of each kind
 RWindows == {<<Midnight(A0), Midnight(A0 + 9)>>, <<Midnight(A1 + 4), Midnight(A1)>>, <<Midnight(A2), Midnight(A2)>>,
              <<<<A0, 34200, 0>>, <<A0 + 9, 34200, 0>>>>, <<<<A1 + 4, 34200, 250000>>, <<A1, 34200, 250000>>>>,
@@ -110,7 +124,8 @@ RRCalls  == {c \in RCalls : c[1] \in {Midnight(A0), <<A0, 34200, 0>>, Midnight(A
 RealScripts == UNION {{<< <<"call", c, rs>> >> : rs \in {rs \in OneOff(c) : RealsOk(rs, c[1], c[2], c[3])}} : c \in RCalls}
                \cup UNION {{<< <<"call", c, r1>>, <<"call", c, r2>> >> : r1 \in BumpVariants(c), r2 \in BumpVariants(c)} : c \in RRCalls}
 
-Scripts == CASE Family = "pair" -> PairScripts [] Family = "edit" -> EditScripts [] Family = "real" -> RealScripts [] OTHER -> {}
+Scripts == CASE Family = "pair" -> PairScripts [] Family = "edit" -> EditScripts [] Family = "real" -> RealScripts
+             [] Family = "all" -> PairScripts \cup EditScripts \cup RealScripts [] OTHER -> {}
 
 CallRec(c, rs) == [op |-> "call", t0 |-> c[1], t1 |-> c[2], bump |-> c[3], reals |-> rs, accept |-> AcceptSeq(c[1], c[2], c[3])]
 Rec(s) == CASE s[1] = "call"   -> CallRec(s[2], s[3])
